@@ -115,6 +115,44 @@ impl CodecEngine {
                 self.dead = false;
                 "ok".into()
             }
+            // hostile feed: like `feed`, but on a thread with a small fixed stack and inside a heap
+            // measurement window around the decode calls only:
+            // "| heap ok" iff peak growth and the largest single request <= 64 x (bytes buffered + chunk) + 32 KiB
+            "hfeed" => {
+                let chunk = match parse_bytes(words[1]) {
+                    Ok(c) => c,
+                    Err(e) => return format!("bad-op {}", e),
+                };
+                if self.dead {
+                    return "dead".into();
+                }
+                let budget = 64 * (self.buf.len() + chunk.len()) + (32 << 10);
+                let me = &mut *self;
+                let res = std::thread::scope(|sc| {
+                    std::thread::Builder::new()
+                        .stack_size(256 * 1024)
+                        .spawn_scoped(sc, move || {
+                            let base = crate::alloc::reset();
+                            me.buf.extend_from_slice(&chunk);
+                            let raw = me.decode_all();
+                            let (peak, maxreq) = crate::alloc::window(base);
+                            (raw, peak, maxreq)
+                        })
+                        .unwrap()
+                        .join()
+                });
+                match res {
+                    Ok((raw, peak, maxreq)) => {
+                        let heap = if peak <= budget && maxreq <= budget {
+                            "ok".to_string()
+                        } else {
+                            format!("EXCESS peak={} maxreq={} budget={}", peak, maxreq, budget)
+                        };
+                        format!("{} | heap {}", self.render(raw), heap)
+                    }
+                    Err(_) => "THREAD-PANIC".into(),
+                }
+            }
             // feed a chunk, then call decode until Ok(None) / Err / panic; report items in order
             "feed" => {
                 let chunk = match parse_bytes(words[1]) {
@@ -125,30 +163,53 @@ impl CodecEngine {
                     return "dead".into();
                 }
                 self.buf.extend_from_slice(&chunk);
-                let mut out: Vec<String> = Vec::new();
-                loop {
-                    let r = catch_unwind(AssertUnwindSafe(|| self.codec.decode(&mut self.buf)));
-                    match r {
-                        Ok(Ok(Some(i))) => out.push(show_item(&i)),
-                        Ok(Ok(None)) => {
-                            out.push("none".into());
-                            break;
-                        }
-                        Ok(Err(e)) => {
-                            out.push(format!("err {}", err_class(&e)));
-                            self.dead = true;
-                            break;
-                        }
-                        Err(_) => {
-                            out.push("PANIC".into());
-                            self.dead = true;
-                            break;
-                        }
-                    }
-                }
-                format!("items {} | left {}", out.join(" ; "), self.buf.len())
+                self.feed_loop()
             }
             _ => "bad-op".into(),
         }
+    }
+
+    fn feed_loop(&mut self) -> String {
+        let raw = self.decode_all();
+        self.render(raw)
+    }
+
+    fn render(&self, raw: Vec<Result<Option<Item>, Option<String>>>) -> String {
+        let out: Vec<String> = raw
+            .iter()
+            .map(|r| match r {
+                Ok(Some(i)) => show_item(i),
+                Ok(None) => "none".to_string(),
+                Err(Some(e)) => format!("err {}", err_class(e)),
+                Err(None) => "PANIC".to_string(),
+            })
+            .collect();
+        format!("items {} | left {}", out.join(" ; "), self.buf.len())
+    }
+
+    /// call `decode` until `Ok(None)`, an error or a panic
+    fn decode_all(&mut self) -> Vec<Result<Option<Item>, Option<String>>> {
+        let mut out = Vec::new();
+        loop {
+            let r = catch_unwind(AssertUnwindSafe(|| self.codec.decode(&mut self.buf)));
+            match r {
+                Ok(Ok(Some(i))) => out.push(Ok(Some(i))),
+                Ok(Ok(None)) => {
+                    out.push(Ok(None));
+                    break;
+                }
+                Ok(Err(e)) => {
+                    out.push(Err(Some(e)));
+                    self.dead = true;
+                    break;
+                }
+                Err(_) => {
+                    out.push(Err(None));
+                    self.dead = true;
+                    break;
+                }
+            }
+        }
+        out
     }
 }
